@@ -54,6 +54,12 @@ fn gen_case(tape: &[u32]) -> Case {
     // long family: the generated objects repeated until the map has 1030-3000 objects (size-dependent code paths)
     let long = family == 1 && spec.objects.len() >= 4;
     if long {
+        // (no 1-2 BPM timing here: a repeated hours-long slider would mean millions of nested objects per map)
+        for tl in spec.timing.iter_mut() {
+            if tl.uninherited && tl.beat_len > 2000.0 {
+                tl.beat_len = 500.0;
+            }
+        }
         let want = t.range(1030, 3000) as usize;
         let base = spec.objects.clone();
         let period = base.last().unwrap().time - base[0].time + 300.0;
@@ -95,7 +101,7 @@ fn gen_case(tape: &[u32]) -> Case {
     let mut dspec = gen_diff(&mut t, &DiffProfile::realistic().passed(spec.objects.len() as u32), target);
     // ultra-gap class: a gap of 72-130 minutes at clock rate 0.01, i.e. 5-9 days of clock-adjusted
     // emptiness = more than 2^20 consecutive zero sections (about 10 MB per skill in the raw layout)
-    let ultra = t.chance(1, 100) && spec.objects.len() >= 2;
+    let ultra = t.chance(1, 100) && !long && spec.objects.len() >= 2;
     if ultra {
         let at = 1 + t.below_usize(spec.objects.len() - 1);
         let gap = t.range(4_300_000, 7_800_000) as f64;
@@ -105,7 +111,12 @@ fn gen_case(tape: &[u32]) -> Case {
     if let Some(r) = margin_rate {
         dspec.clock_rate = Some(r);
     }
-    let score = gen_score_spec(&mut t, spec.objects.len() as u32);
+    let mut score = gen_score_spec(&mut t, spec.objects.len() as u32);
+    if long && target == GameMode::Mania && score.accuracy.is_some() && score.n300.is_none() {
+        // ManiaPerformance::generate_state enumerates O(N^3) candidates when only an accuracy is given
+        // (minutes for thousands of objects, see DESIGN §10): pin one count so that the workload stays a workload
+        score.n300 = Some(t.range(0, spec.objects.len() as i64) as u32);
+    }
     let mut labels = vec![format!("mode{}", spec.mode), format!("target={target:?}")];
     if long_gap {
         labels.push("long-gap-family".into());
@@ -226,6 +237,8 @@ fn main() {
     let threads: usize = get("--threads").and_then(|s| s.parse().ok()).unwrap_or(16);
     let results: Vec<std::sync::Mutex<Vec<String>>> = (0..count).map(|_| std::sync::Mutex::new(Vec::new())).collect();
     let next = std::sync::atomic::AtomicUsize::new(0);
+    // VERIF_SLOW_CASES=1: report cases that take more than half a second (a tuning aid, on stderr)
+    let slow_log = std::env::var_os("VERIF_SLOW_CASES").is_some();
     std::thread::scope(|s| {
         for _ in 0..threads {
             s.spawn(|| loop {
@@ -233,7 +246,12 @@ fn main() {
                 if i >= count {
                     break;
                 }
-                *results[i].lock().unwrap() = case_lines(&gen_case(&tapes[i]));
+                let t0 = std::time::Instant::now();
+                let case = gen_case(&tapes[i]);
+                *results[i].lock().unwrap() = case_lines(&case);
+                if slow_log && t0.elapsed().as_secs_f64() > 0.5 {
+                    eprintln!("slow case {i}: {:.2}s {:?}", t0.elapsed().as_secs_f64(), case.labels);
+                }
             });
         }
     });
